@@ -75,7 +75,9 @@ def run_case(case):
                     break
             if not w.fail:
                 finals.append(w.answers(case.get("final", [])) + [w.answers(_final_fixed(w))])
-                w.full_battery("schedule %d, final battery" % si, max_points=16)
+                burst(w, "schedule %d, final sweep" % si)
+                if si == 0:
+                    w.full_battery("schedule %d, final battery" % si, max_points=12)
         except pbt.CaseTimeout:
             raise
         except Exception as e:  # noqa
@@ -152,6 +154,6 @@ def replay(doc):
 
 
 def jobs(tier, seed):
-    n, shards = (1200, 8) if tier == "quick" else (50000, 16)
+    n, shards = (2000, 8) if tier == "quick" else (50000, 16)
     return [{"name": "sched-%d" % k, "kind": "sched", "n": n // shards, "seed": seed * 1000 + 900 + k,
              "shrink": 100 if tier == "quick" else 1000} for k in range(shards)]
